@@ -503,6 +503,12 @@ def slot_files(pump):
         old = ('%s: %s' % (field, good[field])).encode()
         new = ('%s: %s' % (field, pump.replace('\n', ' '))).encode('utf-8', 'surrogatepass')
         res.append(('header:' + field, _wrap(_msg('', 'a', 'b')).replace(old.replace(b'"', b'\\"'), new.replace(b'\\', b'\\\\').replace(b'"', b'\\"')), '.po'))
+    flat = pump.replace('\n', ' ').replace('"', '').replace('\\', '')
+    for field, good_value in (('Report-Msgid-Bugs-To', good['Report-Msgid-Bugs-To']), ('Last-Translator', good['Last-Translator']), ('Language-Team', good['Language-Team'])):
+        for shape, value in (('e-mail domain', 'A <a@%s>' % flat), ('bare e-mail domain', 'a@%s' % flat), ('e-mail local part', 'A <%s@example.org>' % flat),
+                             ('display name', '%s <a@example.org>' % flat), ('URL host', 'http://%s/x' % flat), ('URL path', 'http://example.org/%s' % flat)):
+            old = ('%s: %s' % (field, good_value)).encode()
+            res.append(('header:%s as %s' % (field, shape), _wrap(_msg('', 'a', 'b')).replace(old, ('%s: %s' % (field, value)).encode('utf-8', 'surrogatepass')), '.po'))
     res.append(('header:charset', _wrap(_msg('', 'a', 'b')).replace(b'charset=UTF-8', b'charset=' + pump.replace('\n', ' ').replace(' ', '_').encode('utf-8', 'surrogatepass').replace(b'\\', b'\\\\').replace(b'"', b'\\"')), '.po'))
     res.append(('header:X-Poedit-Language', _wrap(_msg('', 'a', 'b'), extra_fields='X-Poedit-Language: ' + pump.replace('\n', ' ') + '\n'), '.po'))
     res.append(('header:unknown-field', _wrap(_msg('', 'a', 'b'), extra_fields=pump.replace('\n', ' ') + ': x\n'), '.po'))
